@@ -96,6 +96,34 @@ fn judge(prop: &str, sc: &Scenario, tr: &exec::Trace, use_model: bool) -> Judged
 		}
 	}
 
+	// ---- a resolved ticket implies that its control has run (log order; C07 / C09 / C10) ------------
+	if ["C07", "C09", "C10"].contains(&prop) && sc.faults == sim::Faults::default() {
+		let pos = |pred: &dyn Fn(&Ev) -> bool, from: usize| tr.log.iter().enumerate().skip(from).find(|(_, r)| pred(&r.ev)).map(|(i, _)| i);
+		// (by instant, not by log position: the end of the task wakes the waiters and the task monitor together)
+		let task_end = pos(&|e| matches!(e, Ev::TaskEnd { .. }), 0).map(|i| tr.log[i].t);
+		for ti in &tr.tickets {
+			let id = ti.id;
+			let Some(sent) = pos(&|e| matches!(e, Ev::Send { id: i } if *i == id), 0) else { continue };
+			let Some(done) = pos(&|e| matches!(e, Ev::Done { id: i, .. } if *i == id), sent) else { continue };
+			if task_end.map_or(false, |t| t <= tr.log[done].t) {
+				continue; // the job ended first: every outstanding ticket resolves then
+			}
+			let effect = match ti.op {
+				// the Start half of a restart: a spawn attempt (hook) after the send
+				Op::Restart | Op::RestartSig { .. } => pos(&|e| matches!(e, Ev::Spawn { .. } | Ev::SpawnFail { .. }), sent),
+				Op::Run | Op::MarkerPrio(_) => pos(&|e| matches!(e, Ev::Marker { id: i, .. } if *i == id), sent),
+				Op::RunAsync { .. } | Op::Gate => pos(&|e| matches!(e, Ev::MarkerExit { id: i } if *i == id), sent),
+				_ => continue,
+			};
+			if effect.map_or(true, |e| e > done) {
+				j.violations.push((
+					format!("{prop}/ticket/resolved-before-control-ran/{}", ti.op.name()),
+					format!("ticket #{id} ({}) resolved at log position {done} but the control's effect {} (job still alive)", ti.op.name(), effect.map_or("never happened".to_string(), |e| format!("came later, at position {e}"))),
+				));
+			}
+		}
+	}
+
 	// ---- C10 invariants: per priority FIFO, exactly once ---------------------------------------
 	if prop == "C10" || prop == "C09" {
 		let mut seen: BTreeMap<usize, u32> = BTreeMap::new();
@@ -324,7 +352,12 @@ fn main() {
 	// that the work done, and the evidence describing it, do not depend on how fast or loaded the machine is
 	let quota: u64 = args.extra.get("quota").and_then(|q| q.parse().ok()).unwrap_or(u64::MAX);
 	while r < quota && !budget.exhausted() && (budget.fraction() < 0.9) {
-		if mt_props && r % 80 == 79 {
+		if ["C07", "C09", "C10"].contains(&prop.as_str()) && r % 25 == 24 {
+			// starting takes virtual time: a ticket that resolves before its control has run becomes visible
+			let sc = gen::ticket_implies_effect(&mut rng);
+			run_one(&prop, &sc, &mut rep, false, r == 24);
+			rep.count("ticket_implies_effect_scenarios", 1);
+		} else if mt_props && r % 80 == 79 {
 			// concurrent senders on a multi-thread runtime, real clock (invariant oracles only)
 			mt::run_one(&prop, &mut rng, &mut rep, r == 79);
 		} else {
